@@ -13,6 +13,7 @@
 #include <signal.h>
 #include <sys/types.h>
 #include <sys/wait.h>
+#include <sys/prctl.h>
 #include <sys/stat.h>
 #include <fstream>
 #include <cstdio>
@@ -59,6 +60,8 @@ struct RunResult {
     std::vector<Obs> obs;
     uint64_t state = 0;
     size_t nedges_peak = 0;
+    std::vector<std::string> story;
+    std::vector<uint32_t> astates;     // distinct abstract states visited
 };
 
 static void runPlan(const Plan &P, RunResult &R, bool cold = false)
@@ -75,6 +78,8 @@ static void runPlan(const Plan &P, RunResult &R, bool cold = false)
     R.stats = W.stats;
     R.obs = W.obs;
     R.state = W.eh.h;
+    R.story = W.story;
+    R.astates.assign(W.astates.begin(), W.astates.end());
 }
 
 // --- differential variants ------------------------------------------
@@ -176,7 +181,12 @@ struct IsoResult {
 };
 
 static std::string g_scratch = "/tmp";
-static int g_step_timeout = 120;
+// Hang detection is by the CPU time the run's process has consumed, not by
+// wall clock: a normal run needs 0.1-3 CPU seconds however loaded the machine
+// is, a hung one burns CPU without end.  The wall-clock cap is only a backstop.
+static int g_step_timeout = 60;     // CPU seconds for one run
+static int g_wall_backstop = 1800;  // wall-clock seconds
+static double g_shrink_secs = 90;    // wall-clock cap for one minimisation
 
 static std::string readFile(const std::string &p)
 {
@@ -243,6 +253,8 @@ static void evalIsolated(const Plan &P, long idx, IsoResult &I)
     pid_t pid = fork();
     if (pid < 0) { perror("fork"); exit(2); }
     if (pid == 0) {
+        // never outlive the supervisor (a hung run must not survive it)
+        prctl(PR_SET_PDEATHSIG, SIGKILL);
         close(fds[0]);
         int efd = open(errpath, O_WRONLY | O_CREAT | O_TRUNC, 0644);
         if (efd >= 0) { dup2(efd, 2); close(efd); }
@@ -273,7 +285,12 @@ static void evalIsolated(const Plan &P, long idx, IsoResult &I)
             struct timespec ts = { 0, 2000000 };
             nanosleep(&ts, nullptr);
             struct timespec now; clock_gettime(CLOCK_MONOTONIC, &now);
-            if (now.tv_sec - ts0.tv_sec > g_step_timeout) { I.hung = true; kill(pid, SIGKILL); break; }
+            clockid_t cid;
+            struct timespec cpu = { 0, 0 };
+            if (clock_getcpuclockid(pid, &cid) == 0) clock_gettime(cid, &cpu);
+            if (cpu.tv_sec > g_step_timeout || now.tv_sec - ts0.tv_sec > g_wall_backstop) {
+                I.hung = true; kill(pid, SIGKILL); break;
+            }
             continue;
         }
         break;
@@ -298,7 +315,7 @@ static void evalIsolated(const Plan &P, long idx, IsoResult &I)
         I.ok = false;
         I.crashed = true;
         const std::string &err = I.errtext;
-        if (I.hung) { I.cls = "HANG:run"; I.detail = "a step did not return within the wall-clock cap"; }
+        if (I.hung) { I.cls = "HANG:run"; I.detail = "the run consumed more than the CPU-time cap without finishing (a step does not return)"; }
         else {
             I.cls = "CRASH:" + crashSignature(err, status);
             I.detail = err.substr(0, 1500);
@@ -343,7 +360,16 @@ static void printResult(FILE* out, long idx, const Plan &P, const RunResult &R,
         first = false;
         MEDDLY::verif::probes[i] = 0;
     }
-    fprintf(out, "}}\n");
+    fprintf(out, "},\"astates\":[");
+    for (size_t i = 0; i < R.astates.size() && i < 400; i++) fprintf(out, "%s%u", i ? "," : "", R.astates[i]);
+    fprintf(out, "]");
+    if (idx >= 0 && idx < 3) {
+        fprintf(out, ",\"story\":[");
+        for (size_t i = 0; i < R.story.size() && i < 25; i++)
+            fprintf(out, "%s\"%s\"", i ? "," : "", jsonEscape(R.story[i].substr(0, 300)).c_str());
+        fprintf(out, "]");
+    }
+    fprintf(out, "}\n");
     fflush(out);
 }
 
@@ -352,7 +378,10 @@ static void printResult(FILE* out, long idx, const Plan &P, const RunResult &R,
 // same failure class persists.  Every candidate runs in its own process.
 static void shrinkPlan(Plan &P, const std::string &cls, int budget)
 {
+    auto t0 = std::chrono::steady_clock::now();
+    if (cls.compare(0, 5, "HANG:") == 0) budget = std::min(budget, 24);
     auto still = [&](const Plan &Q) {
+        if (std::chrono::duration<double>(std::chrono::steady_clock::now() - t0).count() > g_shrink_secs) { budget = 0; return false; }
         IsoResult R; evalIsolated(Q, -1, R); budget--;
         return sameFailureIso(R, cls);
     };
@@ -416,6 +445,7 @@ static bool argflag(int argc, char** argv, const char* key)
 
 int main(int argc, char** argv)
 {
+    if (getenv("SIM_RUN_TIMEOUT")) g_step_timeout = atoi(getenv("SIM_RUN_TIMEOUT"));
     if (argc < 2) { fprintf(stderr, "usage: sim.bin batch|replay|shrink|mm ...\n"); return 2; }
     setvbuf(stdout, nullptr, _IOLBF, 0);
     const std::string cmd = argv[1];
